@@ -218,7 +218,7 @@ def add_pagexml_baseline(element: etree.Element, baseline: Coords):
 def add_pagexml_text(element: etree.Element, text: str,
                      coords: Coords = None, baseline: Baseline = None,
                      conf: float = None):
-    attrib = {'conf': str(conf)}
+    attrib = {'conf': str(conf)} if conf is not None else {}
     if element.tag in namespaced_tags(PAGE, {'TextLine', 'Word', 'CornerPts'}):
         text_element = element
     elif element.tag in namespaced_tags(PAGE, 'TextRegion'):
